@@ -12,6 +12,7 @@
 """
 
 import ast
+import re
 
 from .. import simfacts
 from ..flow import Flow
@@ -232,8 +233,65 @@ def vector_dumps(ctx, f):
                             break
                     if dump is not None:
                         break
+                if dump is None:
+                    # for V in IT: FILE.write(FMT.format(V)) -- one item per line, written by hand: read as the dump of IT,
+                    # with the item format kept for the width rule (C19.O5)
+                    for st in body[body.index(blk) + 1:]:
+                        if isinstance(st, ast.For) and isinstance(st.target, ast.Name) and len(st.body) == 1 and not st.orelse \
+                                and isinstance(st.body[0], ast.Expr) and isinstance(st.body[0].value, ast.Call):
+                            w = st.body[0].value
+                            fmt = item_format(w, st.target.id)
+                            if fmt is not None:
+                                dump = ast.Call(func=ast.Attribute(value=ast.Name(id="yaml", ctx=ast.Load()), attr="dump", ctx=ast.Load()),
+                                                args=[st.iter, w.func.value], keywords=[])
+                                ast.copy_location(dump, st)
+                                ast.fix_missing_locations(dump)
+                                dump.parent = st
+                                dump.item_format = fmt
+                                dump.loop = st
+                        break
             out.append((c, c.args[0].value, dump))
     return out
+
+
+def item_format(w, var):
+    """FILE.write('- {:SPEC}\\n'.format(var)) / FILE.write('- %SPEC\\n' % var) -> SPEC, for one YAML sequence item per line"""
+    if not (isinstance(w.func, ast.Attribute) and w.func.attr == "write" and len(w.args) == 1):
+        return None
+    a = w.args[0]
+    if isinstance(a, ast.Call) and isinstance(a.func, ast.Attribute) and a.func.attr == "format" and isinstance(a.func.value, ast.Constant) \
+            and isinstance(a.func.value.value, str) and len(a.args) == 1 and isinstance(a.args[0], ast.Name) and a.args[0].id == var:
+        m = re.fullmatch(r"- \{:?([^{}]*)\}\n", a.func.value.value)
+        return m.group(1) if m else None
+    if isinstance(a, ast.BinOp) and isinstance(a.op, ast.Mod) and isinstance(a.left, ast.Constant) and isinstance(a.left.value, str) \
+            and isinstance(a.right, ast.Name) and a.right.id == var:
+        m = re.fullmatch(r"- %([^%\s]*)\n", a.left.value)
+        return m.group(1) if m else None
+    if isinstance(a, ast.JoinedStr) and len(a.values) == 3 and isinstance(a.values[0], ast.Constant) and a.values[0].value == "- " \
+            and isinstance(a.values[2], ast.Constant) and a.values[2].value == "\n" and isinstance(a.values[1], ast.FormattedValue) \
+            and isinstance(a.values[1].value, ast.Name) and a.values[1].value.id == var:
+        fs = a.values[1].format_spec
+        return "".join(v.value for v in fs.values if isinstance(v, ast.Constant)) if fs is not None else ""
+    return None
+
+
+def max_item_width(spec):
+    """Longest text a float can take under a format spec `.Ne` / `.Ng` / `r` (None if not read)"""
+    m = re.fullmatch(r"\.(\d+)[eE]", spec)
+    if m:
+        return 1 + 1 + 1 + int(m.group(1)) + 1 + 1 + 3          # -d.(N)e-XXX
+    m = re.fullmatch(r"\.(\d+)[gG]", spec)
+    if m:
+        return 1 + 1 + int(m.group(1)) + 1 + 1 + 3               # -d.(N-1)e-XXX
+    if spec in ("", "r", "!r"):
+        return 24                                                  # repr: -d.(16)e-XXX
+    return None
+
+
+def common_item_width(spec):
+    """Width of an ordinary NEGATIVE value (two-digit exponent) under `.Ne`: the case every dataset has"""
+    m = re.fullmatch(r"\.(\d+)[eE]", spec)
+    return (1 + 1 + 1 + int(m.group(1)) + 1 + 1 + 2) if m else None
 
 
 def strip_tolist(node):
@@ -356,8 +414,12 @@ def run(ctx, chk, tier="quick"):
         "argument lineage of the simulate-rise command; agreement of header labels, units (identifier "
         "suffix convention) and zipped columns."
     )
-    chk.assumptions = ["SpecificYield.integrate is the integral of the specific yield (C14)",
+    chk.assumptions = ["the spline's own integrate is the integral of the spline (C14.O3)",
                        "identifier suffixes state units"]
+    # the curve is built from SpecificYield.integrate; the specific yield the package reports is SpecificYield.__call__:
+    # both must be the same function (shared with C14.O4)
+    from .c14 import sy_delegation
+    sy_delegation(ctx, chk, "C17.O1", "the rise curve is cumulated from integrate(); its increments equal the integral of the specific yield only if integrate() integrates what __call__ returns")
     from ..sqlrules import lossy_functions
     lossy_functions(ctx, chk, "C17.O3", ("simulate_rise",), "simulate_rise",
                     "the level column is both the grid of the simulation and the first column of the table: rounded levels are not the levels of the measured curve")
@@ -464,6 +526,9 @@ def run(ctx, chk, tier="quick"):
     for wcall, marker, dump in vector_dumps(ctx, g):
         ok = False
         desc = "?"
+        if dump is None:
+            chk.indeterminate("C17.O4", where_of(g, wcall), "how the vector is written after marker %r is not read (no yaml.dump, no loop of one-item writes)" % marker.strip())
+            continue
         if dump is not None and dump.args:
             core, rev = resolve_vector(gflow, dump.args[0])
             desc = ast.unparse(dump.args[0])
